@@ -111,8 +111,8 @@ def clause_b(facts, rep, table_ok):
             npairs = sum(1 for (loc, sense) in path if False)
             desc = ' / '.join('%s:%s' % (l.split(':')[-1], 'T' if s else 'F') for l, s in path if not l.startswith('call:'))
             if v is None:
-                rep.fail('E3.surrogate', f.qn, 'value set of the encoded code point unknown', locline(e['loc']), 'path %s' % desc, facts.config)
-                continue
+                # the value-set evaluator does not model this expression: not a verdict on the code
+                raise AnalysisBroken('C05.b: value set of the code point handed to codepoint_to_utf8 unknown at %s (path %s): expression form not modelled' % (locline(e['loc']), desc))
             valid = v.inter(0, 0x10FFFF)      # anything larger makes codepoint_to_utf8 return 0 -> rejected (clause c)
             ok = not valid.overlaps(0xD800, 0xDFFF)
             rep.check(ok, 'E3.surrogate', f.qn, 'code point handed to codepoint_to_utf8 on path [%s] is never a surrogate' % desc, locline(e['loc']),
@@ -129,6 +129,51 @@ def clause_b(facts, rep, table_ok):
                 valid = v.inter(0, 0x10FFFF)
                 rep.check(valid.subset_of([(0x10000, 0x10FFFF)]), 'E3.surrogate-pair', f.qn, 'a combined pair encodes a code point in [0x10000, 0x10FFFF]', locline(e['loc']),
                           'value set %s' % v, facts.config)
+
+
+def clause_pair_value(facts, rep, tier='quick'):
+    """the recombination of an escaped surrogate pair, evaluated: with the two hex decodes pinned to a high and a low
+    surrogate (path enumeration over singleton value sets), the code point handed to the UTF-8 encoder is exactly
+    0x10000 + (hi - 0xD800) * 0x400 + (lo - 0xDC00) - for every single-bit, all-zero and all-one payload of both
+    halves (thorough: all 1024 high surrogates).  A range check cannot tell `+ 0x10000` from `| 0x10000`."""
+    fs = [f for f in facts.functions if f.short == 'handle_unicode_codepoint']
+    rep.require(len(fs) >= 1, 'C05: handle_unicode_codepoint not found')
+
+    class Seq(dict):
+        def __init__(self, vals):
+            dict.__init__(self)
+            self.vals, self.i = list(vals), 0
+
+        def __contains__(self, k):
+            return k == 'hex_to_u32_nocheck'
+
+        def __getitem__(self, k):
+            v = self.vals[min(self.i, len(self.vals) - 1)]
+            self.i += 1
+            return ISet([(v, v)])
+    pay = sorted(set([0, 0x3FF] + [1 << b for b in range(10)] + [0x3FF ^ (1 << b) for b in range(10)]))
+    his = list(range(0x400)) if tier == 'thorough' else pay
+    for f in fs[:1]:
+        rep.fn(f)
+        bad = None
+        n = 0
+        for h in his:
+            for l in pay:
+                hi, lo = 0xD800 + h, 0xDC00 + l
+                pe = PathEnum(f, Seq([hi, lo]))
+                got = []
+                try:
+                    pe.run(lambda e, env, path: got.append(pe.ev(e['args'][0], env)) if e.get('cname') == 'codepoint_to_utf8' else None, lambda *a: None)
+                except RuntimeError as ex:
+                    raise AnalysisBroken('C05: pair evaluation: %s' % ex)
+                n += 1
+                want = 0x10000 + (h << 10) + l
+                if len(got) != 1 or got[0] is None or not got[0].subset_of([(want, want)]) or not got[0].overlaps(want, want):
+                    bad = '\\u%04X\\u%04X is encoded as %s, the pair denotes U+%X' % (hi, lo, got, want)
+                    break
+            if bad:
+                break
+        rep.check(bad is None, 'E5.surrogate-value', f.qn, 'combined code point == 0x10000 + (hi-0xD800)*0x400 + (lo-0xDC00) for %d (high, low) pairs' % n, f.loc, bad or '', facts.config)
 
 
 def clause_b2(facts, rep):
@@ -595,6 +640,7 @@ def run(rep, tier):
         ok = clause_a(facts, rep)
         clause_b(facts, rep, ok)
         clause_b2(facts, rep)
+        clause_pair_value(facts, rep, tier)
         clause_c(facts, rep, tier)
         clause_d(facts, rep, nss)
         clause_e(facts, rep, nss)
